@@ -160,6 +160,8 @@ def seeded_variants(prop: str, project: Project) -> list:
         if not (os.path.exists(mp) and os.path.exists(pp)):
             continue
         meta = json.load(open(mp))
+        if meta.get("obsolete"):
+            continue  # a later repair of the library made this change harmless (meta.json says which and why)
         # replayed under every property whose check is recorded as catching it (not necessarily the one it was written against)
         if prop not in (meta.get("caught_by") or {}):
             continue
